@@ -1,6 +1,7 @@
 package main
 
 import (
+	"strings"
 	"fmt"
 	"go/token"
 	"sort"
@@ -145,6 +146,7 @@ func checkC04(c *Check) {
 	okURL := exchangeURLOK(R, m.CbExchange)
 	c.Obl(okURL, "C04.R2", "url", P.Pos(m.CbExchange.Pos()), "request goes to the configured token URI", "the code exchange is not sent to the configured token URI")
 	c04Exchange(c, R)
+	transportPreservesRequest(c, "C04.R2")
 	// BasicAuthHeader shape: "Basic " + base64(id + ":" + secret)
 	if ba := P.Func(pkgHTTP, "BasicAuthHeader"); c.Anchor("C04.R2", "BasicAuthHeader", ba != nil) {
 		ok := false
@@ -318,4 +320,110 @@ func exchangeURLOK(R *Roles, call ssa.CallInstruction) bool {
 		}
 	}
 	return false
+}
+
+// transportPreservesRequest: own http.RoundTripper implementations (the debug logging wrapper installed
+// by NewHTTPClient) hand the request on as they received it. net/http's contract: RoundTrip must not
+// modify the request. Concretely (a) a body-consuming dump (httputil.DumpRequest[Out](r, true)) is applied
+// to the very request that is forwarded — it re-installs the body it consumed on that object; applied to a
+// shallow copy (WithContext) the forwarded request's body is drained; (b) no header map reachable from the
+// incoming request (directly or through a shallow copy) is written, no field of the incoming request is
+// assigned. Filed under C03 and C04: the token request must reach the IdP with its form and credentials.
+func transportPreservesRequest(c *Check, rule string) {
+	P := c.P
+	nRT, nDump := 0, 0
+	for _, rt := range P.Funcs {
+		if rt.Parent() != nil || rt.Name() != "RoundTrip" || rt.Signature.Recv() == nil || rt.Signature.Params().Len() != 1 ||
+			typeID(rt.Signature.Params().At(0).Type()) != "net/http.Request" || !isOwnPath(pkgPathOf(rt)) {
+			continue
+		}
+		nRT++
+		reqParam := rt.Params[len(rt.Params)-1]
+		// is v (possibly in a helper) the incoming request or a shallow copy of it?
+		var fromIncoming func(v ssa.Value, d int) (incoming bool, deepCopy bool)
+		fromIncoming = func(v ssa.Value, d int) (bool, bool) {
+			inc, deep := false, true
+			for _, l := range LeavesInl(v, leafOpts{}, 2, nil) {
+				l = resolveCell(stripConv(l))
+				switch {
+				case l == ssa.Value(reqParam):
+					inc, deep = true, false
+				default:
+					if cl, _, isC := asCall(l); isC {
+						id := funcID(calleeOf(cl).Obj)
+						switch {
+						case id == "net/http.Request.Clone" || strings.HasPrefix(id, "net/http.NewRequest"):
+							continue
+						case id == "net/http.Request.WithContext" && d > 0:
+							if i2, _ := fromIncoming(cl.Common().Args[0], d-1); i2 {
+								inc, deep = true, false
+							}
+							continue
+						}
+					}
+					if p, isP := l.(*ssa.Parameter); isP && p.Parent() != rt && typeID(p.Type()) == "net/http.Request" {
+						// parameter of a helper: conservatively the incoming request
+						inc, deep = true, false
+					}
+				}
+			}
+			return inc, deep
+		}
+		for _, fn := range deepFuncs(rt, 2) {
+			if !isOwnPath(pkgPathOf(fn)) {
+				continue
+			}
+			for _, b := range fn.Blocks {
+				for _, ins := range b.Instrs {
+					switch x := ins.(type) {
+					case ssa.CallInstruction:
+						id := funcID(calleeOf(x).Obj)
+						switch id {
+						case "net/http/httputil.DumpRequest", "net/http/httputil.DumpRequestOut":
+							args := x.Common().Args
+							if body, isK := constBool(args[1]); isK && !body {
+								continue
+							}
+							nDump++
+							same := false
+							for _, l := range LeavesInl(args[0], leafOpts{}, 2, nil) {
+								same = resolveCell(stripConv(l)) == ssa.Value(reqParam)
+								if !same {
+									break
+								}
+							}
+							c.Obl(same, rule, "dump-is-the-forwarded-request/"+nthCallKey(x), P.Pos(x.Pos()), "the body-consuming dump is applied to the request that is forwarded",
+								"the request dump (with body) is applied to "+descDepth(args[0], 3)+", not to the request that is forwarded: the dump drains the body the forwarded request shares with it — the token request reaches the IdP without its form")
+						case "net/http.Header.Set", "net/http.Header.Add", "net/http.Header.Del":
+							hv := x.Common().Args[0]
+							if base, f, ok := fieldLoad(resolveCell(stripConv(hv))); ok && f != nil && f.Name() == "Header" {
+								if inc, _ := fromIncoming(base, 2); inc {
+									c.Fail(rule, "header-write/"+nthCallKey(x), P.Pos(x.Pos()), "a header of the incoming request (or of a shallow copy that shares its header map) is changed in the transport wrapper: the forwarded token request loses or alters its credentials")
+								}
+							}
+						}
+					case *ssa.MapUpdate:
+						if typeID(x.Map.Type()) != "net/http.Header" {
+							continue
+						}
+						if base, f, ok := fieldLoad(resolveCell(stripConv(x.Map))); ok && f != nil && f.Name() == "Header" {
+							if inc, _ := fromIncoming(base, 2); inc {
+								c.Fail(rule, "header-write/"+fnKey(fn)+"/map-update", P.Pos(x.Pos()), "the header map of the incoming request (shared by shallow copies made with WithContext) is written in the transport wrapper: the forwarded token request loses or alters its credentials")
+							}
+						}
+					case *ssa.Store:
+						fa, isF := x.Addr.(*ssa.FieldAddr)
+						if !isF || typeID(fa.X.Type()) != "net/http.Request" {
+							continue
+						}
+						if inc, _ := fromIncoming(fa.X, 2); inc && resolveCell(stripConv(fa.X)) == ssa.Value(reqParam) {
+							c.Fail(rule, "request-field-write/"+fnKey(fn)+"/"+fieldName(fa.X.Type(), fa.Field), P.Pos(x.Pos()), "a field of the incoming request is assigned in the transport wrapper (RoundTrip must not modify the request)")
+						}
+					}
+				}
+			}
+		}
+	}
+	c.Obl(nRT >= 1 && nDump >= 1, rule, "transport-wrapper-found", "-", fmt.Sprintf("%d own RoundTripper(s), %d body-consuming request dump(s) analysed", nRT, nDump),
+		fmt.Sprintf("%d own RoundTrippers / %d request dumps found (the logging wrapper is the anchor of this rule)", nRT, nDump))
 }
